@@ -3,6 +3,9 @@
 
 pub use crate::functions::Function;
 
+/// ids of all supported languages (keys of the embedded language file), sorted
+pub use crate::language::verif_language_ids as supported_languages;
+
 use crate::locale::Locale;
 
 /// `formatter::format::parse_formatted_number` (crate-private)
